@@ -283,7 +283,92 @@ def shrink(case):
         yield {**case, "spec": s}
 
 
-MATCHERS = {}
+# ------------------------------------------------------------------ known findings: narrow matchers
+# A case may show several listed findings at once (one per format).  A matcher accepts a case only if EVERY
+# violation in the result is explained by some listed finding and at least one by its own; anything unexplained
+# makes all matchers fail, the case is then shrunk and reported as a VIOLATION.
+
+import re as _re
+
+_N3_EQ_KEYWORDS = (gg.OWL + "sameAs", "http://www.w3.org/2000/10/swap/log#implies")  # written "=" and "=>"
+_SIZES = _re.compile(r"\|g\|=(\d+) \|parsed\|=(\d+)")
+
+
+def _tag(v):
+    return v.split(":", 1)[0]
+
+
+def _x_dotted_prefix(spec, v):
+    """own Turtle-family output with a dotted prefix cannot be read back"""
+    if _tag(v) not in ("parse-turtle", "parse-longturtle", "parse-n3") or "BadSyntax" not in v:
+        return False
+    iris = {x[1] for t in spec["triples"] for x in t if x[0] == "i"} | {x[2] for t in spec["triples"] for x in t
+                                                                       if x[0] == "l" and x[2]}
+    return any("." in pfx and any(i.startswith(ns) for i in iris) for pfx, ns in spec.get("prefixes", []))
+
+
+def _x_n3_sameas(spec, v):
+    """n3: owl:sameAs ("=") or log:implies ("=>") as a property of a blank node that can be written inline"""
+    if _tag(v) not in ("rt-n3", "parse-n3"):
+        return False
+    if _tag(v) == "parse-n3" and "[=" not in v and "[ =" not in v:
+        return False
+    ts = spec["triples"]
+    return any(s[0] == "b" and p[1] in _N3_EQ_KEYWORDS and sum(1 for t in ts if t[2] == s) <= 1 for s, p, _o in ts)
+
+
+def _rdflib_like_local(iri):
+    """the local name rdflib's split_uri takes: the longest suffix of name characters and ALLOWED_NAME_CHARS"""
+    import unicodedata
+    i = len(iri)
+    while i > 0 and (unicodedata.category(iri[i - 1]) in gg._NAME or iri[i - 1] in "\u00b7\u0387-._%()"):
+        i -= 1
+    return iri[i:]
+
+
+def _x_xml_name(spec, v):
+    """xml / pretty-xml: element name with %, ( or )"""
+    if _tag(v) not in ("parse-xml", "parse-pretty-xml") or "not well-formed (invalid token)" not in v:
+        return False
+    names = {p[1] for _s, p, _o in spec["triples"]}
+    if _tag(v) == "parse-pretty-xml":
+        names |= {o[1] for _s, p, o in spec["triples"] if p[1] == gg.TYPE and o[0] == "i"}
+    return any(any(ch in _rdflib_like_local(n) for ch in "%()") for n in names)
+
+
+def _x_jsonld_typed_cell(spec, v):
+    """json-ld: only the rdf:type rdf:List triples of list cells are missing"""
+    if _tag(v) != "rt-json-ld":
+        return False
+    m = _SIZES.search(v)
+    if not m:
+        return False
+    ts = spec["triples"]
+    cells = {s[1] for s, p, _o in ts if s[0] == "b" and p[1] in (gg.FIRST, gg.REST)}
+    typed = sum(1 for s, p, o in ts if s[0] == "b" and s[1] in cells and p[1] == gg.TYPE and o == ["i", gg.LIST])
+    lost = int(m.group(1)) - int(m.group(2))
+    return typed > 0 and 0 < lost <= typed and " added " not in v
+
+
+_EXPLAIN = {"dotted_prefix": _x_dotted_prefix, "n3_sameas_in_brackets": _x_n3_sameas, "xml_name_percent": _x_xml_name,
+            "jsonld_typed_list_cell": _x_jsonld_typed_cell}
+
+
+def _matcher(name):
+    def m(case, result):
+        spec = case["spec"]
+        viol = result.get("viol", [])
+        if not viol:
+            return False
+        if not all(any(f(spec, v) for f in _EXPLAIN.values()) for v in viol):
+            return False
+        return any(_EXPLAIN[name](spec, v) for v in viol)
+    m.__doc__ = _EXPLAIN[name].__doc__
+    return m
+
+
+MATCHERS = {name: _matcher(name) for name in _EXPLAIN}
+MATCHERS["none"] = lambda case, result: False
 
 
 def TABLES():  # noqa: N802
